@@ -30,6 +30,7 @@ pub mod c07check;
 pub mod c08check;
 pub mod c08shared;
 pub mod c09check;
+pub mod fuzzglue;
 
 use common::{Failure, ReplayFile, Tier, case_from};
 
@@ -65,6 +66,7 @@ pub fn dispatch(prop: &str, tier: Tier, seed: u64) -> i32 {
 pub fn replay(rf: &ReplayFile) -> anyhow::Result<Option<Failure>> {
     let r = match (rf.property.as_str(), rf.sub.as_str()) {
         ("C05", "capdist") => memchecks::exec_capdist(&case_from(rf)?).failure,
+        (_, s) if s.starts_with("fuzz-") => fuzzglue::replay(&case_from(rf)?),
         ("C01", _) => hybchecks::exec_c01(&case_from(rf)?).failure,
         ("C02", _) => memrace::exec_case(&case_from(rf)?).failure,
         ("C06", _) => fetchcheck::exec_fetch(fetchcheck::Which::C06, &case_from(rf)?).failure,
